@@ -42,6 +42,12 @@ HELPER_FUNCS = [
     "Mux.ExtendedOperation", "Mux.Modify", "Mux.Add", "Mux.Delete", "Mux.DefaultRoute", "NewMux",
 ]
 
+LIFECYCLE_FUNCS = ["Server.Run", "Server.Stop", "Server.Ready", "conn.close", "conn.serveRequests", "newConn",
+                   "conn.initConn", "NewServer", "Server.Router"]
+RUNTIME_TRUST = ["sync.Mutex / sync.WaitGroup / context cancellation / go statement: standard interleaving semantics",
+                 "Go's panic rule (an unrecovered panic on any goroutine kills the process), net.Listener / net.Conn behaviour",
+                 "hook placement rule: acquire-like points after the operation, release-like points before it"]
+
 PROPS = {
     "C01": {
         "lean": ["GldapModel.Props.C01"],
@@ -112,6 +118,60 @@ PROPS = {
         "trusted": ["bufio.Writer modelled with non-atomic Write/Flush halves and arbitrary spill; sync.Mutex as mutual exclusion",
                     "real memory corruption from a data race is visible only to the race detector (C15)"],
         "assumptions": ["partial: the theorem speaks about the modelled bufio; TLS record layer and kernel socket buffers are trusted to preserve the byte stream"],
+    },
+    "C06": {
+        "lean": ["GldapModel.Props.C06"], "audit": "GldapModel/Audit/C06.lean",
+        "inventory": ["conn.serveRequests", "conn.readRequest", "newRequest", "Request.ConnectionID"],
+        "streams": [{"stream": "c06", "n_quick": 40, "n_thorough": 800, "timeout_quick": 900, "timeout_thorough": 3000}],
+        "trusted": RUNTIME_TRUST,
+        "assumptions": ["partial: that the Go scheduler actually runs a spawned goroutine is observed only by the rendezvous oracle"],
+    },
+    "C07": {
+        "lean": ["GldapModel.Props.C07"], "audit": "GldapModel/Audit/C07.lean",
+        "inventory": LIFECYCLE_FUNCS,
+        "streams": [{"stream": "c07", "n_quick": 13, "n_thorough": 130, "timeout_quick": 900, "timeout_thorough": 3000}],
+        "trusted": RUNTIME_TRUST,
+        "assumptions": ["partial: stack exhaustion in the third-party BER reader on deeply nested input is a fatal error no recover can catch; it is outside the model and recorded as a known finding"],
+    },
+    "C08": {
+        "lean": ["GldapModel.Props.C08"], "audit": "GldapModel/Audit/C08.lean",
+        "inventory": LIFECYCLE_FUNCS,
+        "streams": [{"stream": "c08", "n_quick": 40, "n_thorough": 800, "timeout_quick": 900, "timeout_thorough": 3000}],
+        "trusted": RUNTIME_TRUST,
+        "assumptions": ["partial: goroutine and descriptor accounting is observed by the oracle only"],
+    },
+    "C09": {
+        "lean": ["GldapModel.Props.C09"], "audit": "GldapModel/Audit/C09.lean",
+        "inventory": ["Server.Run", "newConn", "Request.ConnectionID"],
+        "streams": [{"stream": "c08", "n_quick": 40, "n_thorough": 800, "timeout_quick": 900, "timeout_thorough": 3000}],
+        "trusted": RUNTIME_TRUST,
+        "assumptions": ["scope: one Run per Server (the counter is local to Run)"],
+    },
+    "C10": {
+        "lean": ["GldapModel.Props.C10"], "audit": "GldapModel/Audit/C10.lean",
+        "inventory": ["conn.serveRequests", "conn.close", "Mux.Unbind"],
+        "streams": [{"stream": "c10", "n_quick": 40, "n_thorough": 800, "timeout_quick": 900, "timeout_thorough": 3000}],
+        "trusted": RUNTIME_TRUST, "assumptions": [],
+    },
+    "C11": {
+        "lean": ["GldapModel.Props.C11"], "audit": "GldapModel/Audit/C11.lean",
+        "inventory": LIFECYCLE_FUNCS,
+        "streams": [{"stream": "c11", "n_quick": 24, "n_thorough": 300, "timeout_quick": 900, "timeout_thorough": 3000}],
+        "trusted": RUNTIME_TRUST,
+        "assumptions": ["partial: the theorem is progress (a server-only step is always enabled while a Stop is in progress); seconds are measured by the oracle; handlers are assumed to return once their I/O fails"],
+    },
+    "C12": {
+        "lean": ["GldapModel.Props.C12"], "audit": "GldapModel/Audit/C12.lean",
+        "inventory": LIFECYCLE_FUNCS,
+        "streams": [{"stream": "c12", "n_quick": 30, "n_thorough": 500, "timeout_quick": 900, "timeout_thorough": 3000}],
+        "trusted": RUNTIME_TRUST, "assumptions": [],
+    },
+    "C17": {
+        "lean": ["GldapModel.Props.C17"], "audit": "GldapModel/Audit/C17.lean",
+        "inventory": ["Server.Run", "Server.Ready", "validateAddrPort", "last"],
+        "streams": [{"stream": "c17", "n_quick": 30, "n_thorough": 400, "timeout_quick": 900, "timeout_thorough": 3000}],
+        "trusted": RUNTIME_TRUST,
+        "assumptions": ["partial: that a connection attempt to a bound, listening socket succeeds is the kernel's backlog behaviour, observed by the oracle"],
     },
     "C14": {
         "lean": ["GldapModel.Props.C14"],
